@@ -46,7 +46,7 @@ TInst ==
 \*   a complete stream of a listed version loads (C05/C06)
 UnmBad(e) ==
   LET full == e.cut = -1
-      dem  == VersionDemand(e.ver) IN
+      dem  == VersionDemandCur(e.ver, e.cur) IN
   (IF e.pan # "" THEN {"panic"} ELSE {})
   \cup (IF e.pan = "" /\ ~full /\ e.err = "" THEN {"cut-accepted"} ELSE {})
   \cup (IF e.pan = "" /\ full /\ dem = "mustnot" /\ e.err # "incompatible"
